@@ -8,6 +8,7 @@
 From Coq Require Import ZArith.
 From KM Require Import Base.Bytes Model.Auth Model.Certgen Model.CertgenCases
                        Proofs.CertgenSpec Proofs.CertgenAuth Proofs.Certgen.
+From KM Require Model.Seal.
 Open Scope N_scope.
 
 (* A certificate comes back only from an unsealed server, for a POST whose URL names the
@@ -21,6 +22,34 @@ Theorem c01_sound : forall expand st now lim q u c,
   q_target q = s_name st u /\ q_method q = HPost.
 Proof. exact certgen_sound. Qed.
 Print Assumptions c01_sound.
+
+(* "Sealed server": the key material of the server is the state record of the sealing model
+   (Model/Seal.v), and sealed means that the MAIN signer is absent.  Whatever else is loaded - the
+   Ed25519 SSH CA signer after a half-finished load, CA certificates, trusted peer keys under which
+   a presented session cookie still verifies - and whatever the request (any credential, any
+   certificate type, any user key type), the answer is the error 500 and nothing is signed. *)
+Theorem c01_sealed_refuses_everything : forall expand st now lim q,
+  Seal.signer (s_keys st) = None -> certgen expand st now lim q = Refused 500.
+Proof. exact sealed_refuses_everything. Qed.
+Print Assumptions c01_sealed_refuses_everything.
+
+(* The address an IP-restricted certificate is tested against is the TCP peer of the connection;
+   the forwarding headers of the request (X-Forwarded-For, X-Real-Ip, Forwarded) are no input of
+   the decision: two requests that differ only in them get the same answer ... *)
+Theorem c01_forwarding_headers_ignored : forall expand st now lim q blocks peer xff xreal fw xff' xreal' fw',
+  certgen expand st now lim (on_conn q blocks {| n_peer := peer; n_xff := xff; n_xreal := xreal; n_forwarded := fw |}) =
+  certgen expand st now lim (on_conn q blocks {| n_peer := peer; n_xff := xff'; n_xreal := xreal'; n_forwarded := fw' |}).
+Proof. exact forwarding_headers_ignored. Qed.
+Print Assumptions c01_forwarding_headers_ignored.
+
+(* ... and a client certificate that is not a keymaster user certificate yields a certificate only
+   if the TCP peer lies inside one of its netblocks *)
+Theorem c01_ip_certificate_needs_peer_inside : forall expand st now lim q blocks cn c u d,
+  q_tls q = Some c -> km_signed c = None ->
+  certgen expand st now lim (on_conn q blocks cn) = Issued u d ->
+  exists l b, blocks = Some l /\ In b l /\ in_block (n_peer cn) b = true.
+Proof. exact ip_certificate_needs_peer_inside. Qed.
+Print Assumptions c01_ip_certificate_needs_peer_inside.
 
 (* the loop of certGenHandler decides exactly `qualifies`, for every list and every mask *)
 Theorem c01_sufficient_iff : forall cfg level, sufficient cfg level = true <-> qualifies cfg level.
@@ -112,6 +141,18 @@ Print Assumptions c01_old_refuted.
 Example c01_nonvacuous :
   run_case 96 11 0 0 0 = 6 /\ run_case 64 11 0 0 0 = 0 /\ run_case 36 6 0 0 0 = 0 /\
   run_case 96 11 0 0 1 = 0 /\ run_case 1 6 1 0 0 = 7.
+Proof. vm_compute. repeat split; reflexivity. Qed.
+
+(* the signer-state dimension: under [password] with good basic-auth credentials (shape 1), POST:
+   both signers loaded - an ECDSA user key, an Ed25519 user key and an X.509 request are all served;
+   only the Ed25519 signer loaded - all three refused; main signer only - the Ed25519 user key is
+   refused (422); the address shapes: an automation certificate for 10.0.0.0/8 from 127.0.0.1 with
+   X-Forwarded-For naming an inside address (75) is refused, from inside with headers naming an
+   outside address (79) is served *)
+Example c01_key_states_nonvacuous :
+  map (ks_case 1 1) [0; 1; 2; 3; 4; 5; 6; 7] = [6; 6; 7; 0; 0; 0; 0; 0] /\
+  run_case 16 75 0 0 0 = 0 /\ run_case 16 79 0 0 0 = 14 /\ run_case 16 82 0 0 0 = 14 /\
+  Seal.signer (case_keys 3) = None /\ Seal.ed (case_keys 3) = Some 2 /\ Seal.pubkeys (case_keys 3) = [1].
 Proof. vm_compute. repeat split; reflexivity. Qed.
 
 Example c01_servable_nonvacuous :
